@@ -1246,8 +1246,31 @@ class Executor:
         if isinstance(op, ast.BitAnd) and ca is not None and (ca + 1) & ca == 0:
             return b % (ca + 1)
         if isinstance(op, ast.BitOr):
-            # x | y for operands with disjoint bit ranges is x + y; emit the disjointness as obligation-free
-            # bit-vector reasoning: both operands are known to fit in 32 bits in the code base
+            # x | y == x + y when x is a multiple of 2^k and 0 <= y < 2^k (disjoint bit ranges);
+            # k is read off x syntactically, the range of y is proved by the solver
+            def pow2_factor(t):
+                c = is_conc_int(t)
+                if c is not None:
+                    if c == 0:
+                        return 64
+                    k = 0
+                    while c % 2 == 0:
+                        c //= 2
+                        k += 1
+                    return k
+                t = z3.simplify(t)
+                if z3.is_mul(t) and t.num_args() == 2:
+                    for i in (0, 1):
+                        c = is_conc_int(t.arg(i))
+                        if c is not None and c > 0 and (c & (c - 1)) == 0:
+                            return c.bit_length() - 1
+                return 0
+            for x, y in ((a, b), (b, a)):
+                k = pow2_factor(x)
+                if k > 0:
+                    k = min(k, 62)
+                    if self.sol.check(z3.Not(z3.And(y >= 0, y < 2 ** k)), timeout_ms=1000) == z3.unsat:
+                        return z3.simplify(x + y)
             w = 32
             r = fresh_int("bor")
             st.ctx.add(z3.Implies(z3.And(a >= 0, a < 2 ** w, b >= 0, b < 2 ** w),
@@ -1858,30 +1881,40 @@ class Executor:
                 continue
             n0 = (len(s2.ctx.facts), len(s2.ctx.qfacts), len(s2.ctx.bounds))
             other = s2.fork()
-            normals = []
+            outs = {True: [], False: []}
             for b, sb, body in ((True, s2, s.body), (False, other, s.orelse)):
                 self.sol.push()
                 try:
                     sb.assume(cond if b else z3.Not(cond))
                     for flow, val, s3 in self.exec_block(body, 0, sb):
-                        if flow == "next":
-                            normals.append((b, s3))
+                        if flow in ("next", "return"):
+                            outs[b].append((flow, val, s3))     # candidates for a join
                         else:
                             yield flow, val, s3
                 finally:
                     self.sol.pop()
-            if len(normals) == 2 and normals[0][0] != normals[1][0] and self.merging and \
-                    self.light(n0, normals[0][1], normals[1][1]):
+            a, bb = outs[True], outs[False]
+            if len(a) == 1 and len(bb) == 1 and a[0][0] == bb[0][0] and self.merging:
+                # both arms complete the same way (fall through, or `return <value>`): join them
                 try:
-                    m = self.merge_states(cond, n0, normals[0][1], normals[1][1])
+                    scratch = Ctx(None)
+                    scratch.memo = {}
+                    mv = None
+                    if a[0][0] == "return":
+                        mv = self.merge_value(cond, a[0][1] if a[0][1] is not None else NONE,
+                                              bb[0][1] if bb[0][1] is not None else NONE, scratch)
+                    m = self.merge_states(cond, n0, a[0][2], bb[0][2])
+                    m.ctx.add(*scratch.facts)
+                    for x in scratch.bounds:
+                        m.ctx.bound(x)
                 except Unmergeable:
                     m = None
                 if m is not None:
-                    yield "next", None, m
+                    yield a[0][0], mv, m
                     continue
-            for b, s3 in normals:
+            for flow, val, s3 in a + bb:
                 with self.activate(s3):
-                    yield "next", None, s3
+                    yield flow, val, s3
 
     def s_Assert(self, s, st):
         for c, s2 in self.eval(s.test, st):
